@@ -15,6 +15,7 @@ from __future__ import annotations
 import ast
 
 from ..affine import Aff, div8
+from ..normalize import inline_helpers
 from ..bitwin import BitsV, BytesV, ToBytesV, all_paths, holds
 from ..core import Ctx, PropSpec, Unsupported
 from ..extract import where
@@ -30,7 +31,7 @@ def _eq(facts, a: Aff, b: Aff) -> bool:
 
 def extract_bits_rule(ctx: Ctx):
     prog = ctx.prog
-    fi = prog.func(f"{PK}::_extract_bits")
+    fi = inline_helpers(prog, prog.func(f"{PK}::_extract_bits"))
     if len(fi.params) != 3:
         ctx.unknown("R3.1", fi.key, f"expected (data, start_bit, nbits), got {fi.params}")
         return False
@@ -79,7 +80,7 @@ def _taken(p):
 
 def reader_rule(ctx: Ctx, eb_ok: bool):
     prog = ctx.prog
-    eb = prog.func(f"{PK}::_extract_bits")
+    eb = inline_helpers(prog, prog.func(f"{PK}::_extract_bits"))
 
     def eb_summary(ev, call: ast.Call):
         """_extract_bits(d, s, n) = Bits(d, s, s+n) provided 0<=s, 0<=n, s+n <= 8*len(d)  (derived by R3.1)."""
@@ -95,7 +96,7 @@ def reader_rule(ctx: Ctx, eb_ok: bool):
         return BitsV(d.base, ev.S(base_bits + s), ev.S(base_bits + s + n))
 
     for meth, kind in (("read_as_int", "int"), ("read_as_bytes", "bytes")):
-        fi = prog.func(f"{PK}::RawPacketData.{meth}")
+        fi = inline_helpers(prog, prog.func(f"{PK}::RawPacketData.{meth}"))
         if len(fi.params) != 2:
             ctx.unknown("R3.2", fi.key, f"expected (self, nbits), got {fi.params}")
             continue
@@ -212,7 +213,7 @@ def witness_search(ctx: Ctx, thorough: bool):
     cases = witness_cases(thorough)
     ctx.stats["witness_cases"] = len(cases) * len(PATTERNS)
     for meth in ("read_as_int", "read_as_bytes"):
-        fi = prog.func(f"{PK}::RawPacketData.{meth}")
+        fi = inline_helpers(prog, prog.func(f"{PK}::RawPacketData.{meth}"))
         site = f"{fi.key}::witness-search"
         bad = None
         try:
@@ -238,7 +239,7 @@ def witness_search(ctx: Ctx, thorough: bool):
         ctx.decide(bad is None, "R3.w", site, f"{len(cases) * len(PATTERNS)} (buffer, pos, width) cases agree", bad or "",
                    where=where(fi, fi.node))
     # _extract_bits directly (used by the header accessors and the framer with start/width not tied to a cursor)
-    fi = prog.func(f"{PK}::_extract_bits")
+    fi = inline_helpers(prog, prog.func(f"{PK}::_extract_bits"))
     site = f"{fi.key}::witness-search"
     bad = None
     try:
@@ -310,6 +311,7 @@ SPEC = PropSpec(
     title="Bit-cursor reads return exactly the addressed bits and advance by the width",
     check=check,
     floors={"R3.1": 2, "R3.2": 3, "R3.3": 2, "R3.w": 3},
+    fallback={"R3.1": ("R3.w",), "R3.2": ("R3.w",)},
     explanation=("Symbolic evaluation in a bit-window abstract domain: every path of _extract_bits (both slice modes: "
                  "upper bound inside the buffer / cut at its end) is shown to return Bits(data, s, s+n) - the affine "
                  "normaliser cancels 8*(s//8) + s%8 = s and the clamped length between the shift and the window end - "
